@@ -3,6 +3,9 @@ package main
 import (
 	"crypto/sha512"
 	"fmt"
+	"hash/adler32"
+	"hash/crc32"
+	"hash/fnv"
 	"strings"
 
 	"golang.org/x/crypto/pbkdf2"
@@ -112,6 +115,19 @@ func propC04(c *Ctx) {
 		c.seed("long-key", strings.Repeat("a", n), "p")
 		c.seed("long-key", strings.Repeat("é", n/2), strings.Repeat("ｶﾞ", n/6))
 		c.seed("long-salt", "m", strings.Repeat("z", n))
+	}
+	// pairs of different arguments of equal length that collide under the weak 32-bit hashes a cache might be
+	// keyed with (CRC-32 IEEE and Castagnoli, Adler-32, FNV-1 and FNV-1a, the 31·h+c string hash, the byte sum):
+	// found by birthday search over random lower-case strings; each pair is derived back to back, in both orders,
+	// as mnemonic and as passphrase — a result or a key schedule remembered under such a key is served for the
+	// wrong argument
+	for _, pair := range weakHashCollisions(c) {
+		for _, ord := range [][2]string{{pair[0], pair[1]}, {pair[1], pair[0]}} {
+			c.seed("weak-hash-collision", ord[0], "p")
+			c.seed("weak-hash-collision", ord[1], "p")
+			c.seed("weak-hash-collision", "m", ord[0])
+			c.seed("weak-hash-collision", "m", ord[1])
+		}
 	}
 	// Hangul in mixed forms: precomposed syllables next to conjoining jamo, compatibility jamo (U+3131…),
 	// half-width jamo (U+FFA0…) and circled / parenthesised Hangul — a shortcut that decomposes syllables by
@@ -702,4 +718,47 @@ func (c *Ctx) coverSentences(li int, each func(s string)) {
 		}
 		each(strings.ReplaceAll(c.specSentence(l, e), "　", " "))
 	}
+}
+
+// weakHashCollisions: for each weak hash, one pair of distinct equal-length strings with the same hash value.
+func weakHashCollisions(c *Ctx) [][2]string {
+	castagnoli := crc32.MakeTable(crc32.Castagnoli)
+	hashes := []func(b []byte) uint32{
+		crc32.ChecksumIEEE,
+		func(b []byte) uint32 { return crc32.Checksum(b, castagnoli) },
+		adler32.Checksum,
+		func(b []byte) uint32 { h := fnv.New32(); h.Write(b); return h.Sum32() },
+		func(b []byte) uint32 { h := fnv.New32a(); h.Write(b); return h.Sum32() },
+		func(b []byte) uint32 {
+			var h uint32
+			for _, x := range b {
+				h = 31*h + uint32(x)
+			}
+			return h
+		},
+		func(b []byte) uint32 {
+			var h uint32
+			for _, x := range b {
+				h += uint32(x)
+			}
+			return h
+		},
+	}
+	out := [][2]string{}
+	for _, h := range hashes {
+		seen := map[uint32]string{}
+		for i := 0; i < 400000; i++ {
+			b := make([]byte, 24)
+			for k := range b {
+				b[k] = byte('a' + c.rng.Intn(26))
+			}
+			v := h(b)
+			if o, ok := seen[v]; ok && o != string(b) {
+				out = append(out, [2]string{o, string(b)})
+				break
+			}
+			seen[v] = string(b)
+		}
+	}
+	return out
 }
